@@ -207,11 +207,11 @@ def replay(case, ctx):
 
 
 def plan(tier, seed):
-    n, per = (8, 400) if tier == "quick" else (10, 30000)
+    n, per = (9, 2000) if tier == "quick" else (10, 30000)
     sh = [{"kind": "remap", "kinds": [["pv", "tag"], ["hostile", "tag2", "pv"]][k % 2], "n": per} for k in range(n)]
-    nf, perf = (4, 300) if tier == "quick" else (3, 20000)
+    nf, perf = (3, 1500) if tier == "quick" else (3, 20000)
     sh += [{"kind": "fasta", "n": perf} for _ in range(nf)]
-    nc, perc = (4, 24) if tier == "quick" else (3, 600)
+    nc, perc = (4, 90) if tier == "quick" else (3, 600)
     sh += [{"kind": "cli", "n": perc} for _ in range(nc)]
     return sh
 
